@@ -84,6 +84,20 @@ def facts_at(ctx, f: FunctionInfo, node: ast.AST) -> Set[Tuple[str, bool]]:
     return out
 
 
+def holds_one_of(ctx, f: FunctionInfo, node: ast.AST, atoms) -> bool:
+    """whenever ``node`` is evaluated at least one of the (text, truth) atoms holds: a fact, or a dominating test every alternative of
+    which (disjunctive normal form) contains one of them - `if not a or b not in c:` establishes 'a is false or b in c is false'"""
+    atoms = set(atoms)
+    if atoms & facts_at(ctx, f, node):
+        return True
+    cfg = cfg_of(f.node)
+    for t, lab in ctx.ef._dominating_tests(cfg, node):
+        alts = alternatives(t, lab == "true")
+        if alts and all(atoms & set(a) for a in alts):
+            return True
+    return False
+
+
 def _flag_definition(f: FunctionInfo, name: str, at_node: ast.AST) -> Optional[ast.AST]:
     """the test a boolean flag stands for: ``name`` has exactly one reaching definition here, `name = <comparison / not / and /
     or / predicate call>`, and nothing that expression reads is re-bound in the function after that definition"""
